@@ -658,6 +658,8 @@ structure Reply where
   srcNode : Nat
   hdr : PacketHdr
   payload : Bytes
+  /-- the table index of the session it was written on (`none`: written without a session) -/
+  via : Option Nat := none
 deriving Repr, DecidableEq, Inhabited
 
 structure HRes where
@@ -720,7 +722,7 @@ def World.evictSome (w : World) (now exchId : Nat) (p : ProtoHdr) : HRes × Worl
       let w' := w.remove i
       match writeOnSession s p (statusReport GC_SUCCESS SC_CLOSE_SESSION []) with
       | .error e => ({ failed := some e }, w')
-      | .ok (r, _) => ({ replies := [r] }, w')
+      | .ok (r, _) => ({ replies := [{ r with via := some i }] }, w')
 
 /-- the `match result { .. }` of `handle_rx_packet`; `h` = the headers `decode_packet` left in the
 packet, `w` = the node after `decode_packet` -/
@@ -739,7 +741,7 @@ def react (now exchId : Nat) (from_ : Addr) (h : PacketHdr) (o : Outcome) (w : W
             Consts.protoIdSecureChannel Consts.opMrpStandaloneAck false
           match writeOnSession s p [] with
           | .error e => ({ failed := some e }, w)
-          | .ok (r, s') => ({ replies := [r] }, { w with node := w.node.set i s', lru := w.lru.set i now })
+          | .ok (r, s') => ({ replies := [{ r with via := some i }] }, { w with node := w.node.set i s', lru := w.lru.set i now })
     else ({}, w)
   | .err .NoSpaceSessions =>
     if !h.plain.isEncrypted && h.proto.isNewSession then
@@ -763,7 +765,7 @@ def react (now exchId : Nat) (from_ : Addr) (h : PacketHdr) (o : Outcome) (w : W
         let w' := w.remove i
         match writeOnSession s p (statusReport GC_SUCCESS SC_CLOSE_SESSION []) with
         | .error e => ({ failed := some e }, w')
-        | .ok (r, _) => ({ replies := [r] }, w')
+        | .ok (r, _) => ({ replies := [{ r with via := some i }] }, w')
   | .err .NoSession =>
     if !h.plain.isEncrypted then ({}, w)
     else
